@@ -186,6 +186,10 @@ Proof.
       eapply src_not_obj; [exact IR | exact Hin | | exact U].
       destruct (src_in_repo c src) eqn:X; [|reflexivity].
       assert (existsb (src_in_repo c) (o_srcs o) = true) by (apply existsb_exists; exists src; split; assumption). congruence.
+    + destruct Hp as [E|[]]; subst q. apply existsb_exists in A as [src [Hs U]].
+      eapply src_not_obj; [exact IR | exact Hin | | exact U].
+      destruct (src_in_repo c src) eqn:X; [|reflexivity].
+      assert (existsb (src_in_repo c) (o_srcs o) = true) by (apply existsb_exists; exists src; split; assumption). congruence.
   - destruct (o_kind o) eqn:K; try discriminate; apply orb_true_iff in A as [A|A];
       solve [ apply touch_ok_outside; eapply commit_new_touch; eassumption
             | eapply commit_version_touch; eassumption ].
@@ -319,6 +323,7 @@ Proof.
     + apply andb_true_iff in A as [A1 A2]. destruct Hp as [E|[E|[]]]; subst p.
       * right. split; [reflexivity | exact A1].
       * left. left. eapply under_trans; [apply below_under; apply (S_o_below c o HX) | apply below_under; exact A2].
+    + destruct Hp as [E|[]]; subst q. right. split; [reflexivity | exact A].
     + destruct Hp as [E|[]]; subst q. right. split; [reflexivity | exact A].
   - exfalso. destruct (o_kind o) eqn:K; try discriminate; apply orb_true_iff in A as [A|A].
     1,3: (unfold commit_new in A; apply andb_true_iff in A as [A _]; apply andb_true_iff in A as [_ NR];
